@@ -65,7 +65,7 @@ def C07(tier):
 
 
 def C08(tier):
-    return _count('C08', ['C08'], ['clean-snapshot', 'omega-exit', 'elected-exit'], tier, meek_only=True)
+    return _count('C08', ['C08'], ['clean-snapshot', 'omega-exit', 'elected-exit', 'stable-exit-compared'], tier, meek_only=True)
 
 
 def _render_jobs(tier):
@@ -133,6 +133,9 @@ def C12(tier):
     from props import laws
     ps = PRECISIONS_Q if tier != 'thorough' else PRECISIONS_T
     obs = [[law, {'p': p}] for p in ps for law in laws.FIXED_LAWS]
+    # display digits below the working precision must not leak into the arithmetic
+    for p, d in ([(2, 0), (4, 1)] if tier != 'thorough' else [(2, 0), (3, 1), (4, 1), (6, 2), (9, 0)]):
+        obs += [[law, {'p': p, 'd': d}] for law in laws.FIXED_LAWS]
     D = 6 if tier != 'thorough' else 12
     for law in laws.RATIONAL_LAWS:
         if law == 'rt_mul':
@@ -351,6 +354,9 @@ def C10(tier):
         for rule, opts in [('wigm-prf-batch', {}), ('cfer-batch', {}), ('mpls', {}), ('meek', FX3)]:
             jobs.append(djob('split', rule, opts, 4, 2, 2, 5, budget=1500))
         jobs.append(djob('split', 'wigm', grid.RAT, 3, 2, 2, 4, budget=1500))
+    # equal-rank lines (shares of 1/2 and 1/3 of a ballot): splitting or merging such a line must not matter either
+    for rule in ('meek', 'warren'):
+        jobs.append(djob('split', rule, FX3, 3, 2, 2, 5 if quick else 6, budget=300 if quick else 1500, equal=grid.EQUAL_LINES))
     # comparison statistics printed under guarded arithmetic: a zero-free universe (every line and every part exists in the file)
     for rule, opts in [('wigm', grid.G44), ('meek', dict(grid.G44, omega=2)), ('warren', dict(grid.G44, omega=2))]:
         jobs.append(djob('split', rule, opts, 3, 2, 2, 8 if quick else 10, nozero=True, lines=['1 2', '2 1', '3'], budget=300 if quick else 1500))
